@@ -46,39 +46,44 @@ Theorem C10_member_remove_refuted :
 Proof. exact member_remove_refuted. Qed.
 Print Assumptions C10_member_remove_refuted.
 
-(** std.foldl / std.foldr / std.map: the loops (which force each element before calling the function) equal the index recursions of std.jsonnet (which hand the function a thunk) for EVERY function, on ALL arrays without a failing element ... *)
+(** std.foldl / std.foldr / std.map (since fixes 762ca42, 9dc676b the loops hand the element THUNK to the function): equal to the index recursions of std.jsonnet for EVERY function on ALL arrays of thunks. *)
 Theorem C10_folds_map_refine :
   forall (A B C : Type) (fl : B -> option A -> option B) (fr : option A -> B -> option B)
          (f : option A -> option C) (l : list (option A)) (acc : B),
-    has_failing l = false ->
     foldl_impl fl l acc = foldl_spec fl l acc /\
     foldr_impl fr l acc = foldr_spec fr l acc /\
     map_impl f l = map_spec f l.
 Proof. exact folds_map_refine. Qed.
 Print Assumptions C10_folds_map_refine.
 
-(** ... and on ALL arrays for every function that evaluates the element it is given. *)
-Theorem C10_folds_map_refine_strict :
-  forall (A B C : Type) (fl : B -> option A -> option B) (fr : option A -> B -> option B)
-         (f : option A -> option C) (l : list (option A)) (acc : B),
-    (forall a, fl a None = None) -> (forall a, fr None a = None) -> f None = None ->
-    foldl_impl fl l acc = foldl_spec fl l acc /\
-    foldr_impl fr l acc = foldr_spec fr l acc /\
-    map_impl f l = map_spec f l.
-Proof. exact folds_map_refine_strict. Qed.
-Print Assumptions C10_folds_map_refine_strict.
-
-(** the witness: std.foldl(function(p, q) p, [error], 0), std.foldr(function(p, q) q, [error], 0) fail and std.map(function(x) 7, [error])[0] fails in the code; the definitions give 0, 0 and 7. *)
-Theorem C10_callback_forced_refuted :
+(** historical: the loops as they were BEFORE those fixes (element forced first) deviated: std.foldl(function(p, q) p, [error], 0), std.foldr(function(p, q) q, [error], 0), std.map(function(x) 7, [error])[0] failed; the definitions give 0, 0 and 7. *)
+Theorem C10_callback_forced_old_refuted :
   exists (l : list (option val)) (init : val),
     has_failing l = true /\
-    foldl_impl (fun acc t => lapply2 L2Fst (Some acc) t) l init = None /\
+    foldl_impl_old (fun acc t => lapply2 L2Fst (Some acc) t) l init = None /\
     foldl_spec (fun acc t => lapply2 L2Fst (Some acc) t) l init = Some init /\
-    foldr_impl (fun t acc => lapply2 L2Snd t (Some acc)) l init = None /\
+    foldr_impl_old (fun t acc => lapply2 L2Snd t (Some acc)) l init = None /\
     foldr_spec (fun t acc => lapply2 L2Snd t (Some acc)) l init = Some init /\
-    map_impl (lapply FConst) l = [None] /\ map_spec (lapply FConst) l = [Some (VNum 7)].
-Proof. exact callback_forced_refuted. Qed.
-Print Assumptions C10_callback_forced_refuted.
+    map_impl_old (lapply FConst) l = [None] /\ map_spec (lapply FConst) l = [Some (VNum 7)].
+Proof. exact callback_forced_old_refuted. Qed.
+Print Assumptions C10_callback_forced_old_refuted.
+
+(** std.mapWithIndex = makeArray(length, function(i) func(i, arr[i])); std.filter (ArrValue::filter: eager pass, abandoned at the first failing element, then the lazy pass) applies the predicate to every element thunk in order and keeps the thunks; std.filterMap = map(map_func, filter(filter_func, arr)); for EVERY function / predicate on ALL arrays of thunks. *)
+Theorem C10_mapi_filter_refine :
+  forall (A B : Type) (fi : nat -> option A -> option B) (f : option A -> option B)
+         (p : option A -> option bool) (l : list (option A)),
+    mapi_impl fi 0 l = mapi_spec fi l /\
+    filter_impl p l = filter_spec p l /\
+    filter_map_impl f p l = filter_map_spec f p l.
+Proof. exact mapi_filter_refine. Qed.
+Print Assumptions C10_mapi_filter_refine.
+
+(** std.flatMap on arrays (since fix 9d0c0a4 element and result elements stay thunks) = flattenArrays(makeArray(length, function(i) func(arr[i]))) for EVERY function that never returns null (null is skipped by the code: jrsonnet's extension, outside the documented domain), on ALL arrays of thunks. *)
+Theorem C10_flatmap_refine :
+  forall (A B : Type) (ff : option A -> option (option (list (option B)))) (l : list (option A)),
+    returns_null ff l = false -> flatmap_impl ff l = flatmap_spec ff l.
+Proof. exact flatmap_refine. Qed.
+Print Assumptions C10_flatmap_refine.
 
 (** std.reverse: ReverseArray's index translation is makeArray(l, function(i) arr[l - i - 1]), i.e. the reversed list of the same thunks. *)
 Theorem C10_reverse_refines :
@@ -107,6 +112,15 @@ Theorem C10_top1_on_empty :
 Proof. exact top1_empty. Qed.
 Print Assumptions C10_top1_on_empty.
 
+(** the witness for the class [has_failing] (still the case): std.minArray([1, error], keyF=function(x) 7) fails in the code (array_top1 forces the element before keyF runs); the definition gives 1. *)
+Theorem C10_top1_key_forced_refuted :
+  exists l : list (option val),
+    has_failing l = true /\ first_key_incomparable (lkeyfn (Some FConst)) cmp_val l = false /\
+    top1_impl (lkeyfn (Some FConst)) cmp_val Lt l None = None /\
+    top1_spec (lkeyfn (Some FConst)) cmp_val Gt l None = Some (VNum 1).
+Proof. exact top1_key_forced_refuted. Qed.
+Print Assumptions C10_top1_key_forced_refuted.
+
 (** the witness: std.minArray([null]) is null in the code; by the definition std.__compare(null, null) fails. *)
 Theorem C10_top1_first_key_refuted :
   exists l : list (option val),
@@ -132,7 +146,7 @@ Theorem C10_starts_ends_with_refine :
 Proof. exact starts_ends_with_refine. Qed.
 Print Assumptions C10_starts_ends_with_refine.
 
-(** END-TO-END for the correspondence check: every call of the 15 functions on arrays of thunks over the value universe, outside the three known classes, has the SPEC outcome. *)
+(** END-TO-END for the correspondence check: every call of the 19 functions on arrays of thunks over the value universe, outside the three known classes (member / remove; minArray / maxArray twice), has the SPEC outcome. *)
 Theorem C10_lazy_calls_refine :
   forall c, lknown c = 0 -> limpl c = lspec c.
 Proof. exact lcalls_refine. Qed.
@@ -187,4 +201,14 @@ Example C10_lazy_calls_nonvacuous :
   = Some (LA [Some (VNum 1); Some (VNum 1)]) /\
   lknown (LMaxArray [Some (VNum 1); Some (VNum 3); Some (VNum 3)] (Some FNeg) None) = 0 /\
   limpl (LMaxArray [Some (VNum 1); Some (VNum 3); Some (VNum 3)] (Some FNeg) None) = Some (LV (VNum 1)).
+Proof. repeat split; reflexivity. Qed.
+Example C10_flatmap_filter_nonvacuous :
+  returns_null (lflat LMDup) [None; Some (VNum 1)] = false /\
+  flatmap_impl (lflat LMDup) [None; Some (VNum 1)] = Some [None; None; Some (VNum 1); Some (VNum 1)] /\
+  flatmap_impl (lflat LMErrElem) [Some (VNum 1)] = Some [None] /\
+  flatmap_impl (lflat LMIfNum) [Some (VNum 1); None] = None /\
+  filter_impl (lpred FTrue) [None; Some (VNum 1)] = Some [None; Some (VNum 1)] /\
+  filter_impl (lpred FIsNum) [Some (VNum 1); None] = None /\
+  filter_map_impl (lapply FConst) (lpred FTrue) [None] = Some [Some (VNum 7)] /\
+  mapi_impl (fun i t => lapply2 L2Fst (Some (VNum (Z.of_nat i))) t) 0 [None; None] = [Some (VNum 0); Some (VNum 1)].
 Proof. repeat split; reflexivity. Qed.
